@@ -401,6 +401,11 @@ def _bytes_term(it, b):
         return z3.Const('bytes_of_' + t[1], _B)
     if t and t[0] == 'enc':
         return ufun('py_encode', _S, _S, _S, _B)(*t[1])
+    if t and t[0] == 'slice':
+        # a window of another value: identified by (value, offset, length)
+        root = _bytes_term(it, t[1])
+        return ufun('py_bytes_window', _B, z3.IntSort(), z3.IntSort(), _B)(
+            root, t[2], b.zlen())
     raise Unsupported('codec operation on a derived bytes value')
 
 
@@ -461,10 +466,14 @@ def codec_decode(it, recv, args, kw):
     if z3.is_string_value(e_enc) and e_enc.as_string() in (
             'ascii', 'us-ascii') and z3.is_string_value(e_err) \
             and e_err.as_string() == 'strict':
-        # one character per byte, all of them ASCII
+        # one character per byte, all of them ASCII.  Stated for short
+        # values only: a length equation makes z3 build a witness string
+        # of that length for every satisfiable query on the path.
         from . import ops
-        it.path.fact(z3.Length(r) == ops.as_sbytes(recv).zlen())
-        it.path.fact(ufun('py_isascii', _S, z3.BoolSort())(r))
+        n = ops.as_sbytes(recv).zlen()
+        if it.path.implied(n <= 63):
+            it.path.fact(z3.Length(r) == n)
+            it.path.fact(ufun('py_isascii', _S, z3.BoolSort())(r))
     return mk_str(r)
 
 
